@@ -16,6 +16,17 @@ package main
 // interface>); the others are linked into one program that replays all
 // behaviours through generated proxy -> in-process server -> generated stub.
 // Plain interfaces are additionally generated in IDL packages of three.
+//
+// Packages whose interface exchanges objects of interfaces of the package
+// (Probe, Relay, the interface itself) carry the declarations of those
+// interfaces (the specification's text, in one of two layouts); their
+// implementors forward ident / pass to drv.Obj, and the package registers
+// Create<Itf> / Make<Itf> so that the runner can host objects on both sides
+// and pass generated proxies the way the generated API demands.  They are
+// generated with an empty package path like the repository's own go:generate
+// lines (the interface types qualify their names with the package path of
+// the InterfaceType, which is empty); one of them is generated a second time
+// with the path of its directory (class .../with-package-path).
 
 import (
 	"bytes"
@@ -41,11 +52,23 @@ import (
 )
 
 type c05Scenario struct {
-	Cls   string    `json:"cls"`
-	Key   []int     `json:"key"`
-	Lines []string  `json:"lines"`
-	Acts  []drv.Act `json:"acts"`
-	Ops   []drv.Op  `json:"ops"`
+	Cls    string    `json:"cls"`
+	Key    []int     `json:"key"`
+	Layout string    `json:"layout"`
+	Itfs   []string  `json:"itfs"`
+	Lines  []string  `json:"lines"`
+	Acts   []drv.Act `json:"acts"`
+	Ops    []drv.Op  `json:"ops"`
+}
+
+// pkgKey names the generated package of a scenario: the interface and the
+// layout of the IDL text.
+func (sc *c05Scenario) pkgKey() string {
+	k := keyString(sc.Key)
+	if sc.Layout == "aux-last" {
+		k += "_l"
+	}
+	return k
 }
 
 // c05Unit is one interface inside one generated Go package.
@@ -55,11 +78,21 @@ type c05Unit struct {
 }
 
 type c05Package struct {
-	name  string // directory under gen/ and registry prefix
-	cls   string
-	units []c05Unit
-	text  string
-	ok    bool
+	name     string // directory under gen/ and registry prefix
+	cls      string
+	units    []c05Unit
+	text     string
+	ok       bool
+	withPath bool   // generated with the package path of its directory
+	variant  string // suffix of the failure class
+}
+
+// aux: the interfaces of the package besides the assembled one.
+func (p *c05Package) aux() []string {
+	if len(p.units) != 1 {
+		return nil
+	}
+	return p.units[0].sc.Itfs
 }
 
 func keyString(k []int) string {
@@ -109,6 +142,19 @@ func idlBlocks(lines []string) (itf []string, structs map[string][]string, order
 }
 
 func (p *c05Package) render() {
+	if len(p.units) == 1 { // the specification's text (it may declare several interfaces)
+		var sb strings.Builder
+		for _, l := range p.units[0].sc.Lines {
+			switch {
+			case strings.HasPrefix(l, "package "), strings.HasPrefix(l, "interface "), strings.HasPrefix(l, "struct "), l == "end":
+				sb.WriteString(l + "\n")
+			default:
+				sb.WriteString("\t" + l + "\n")
+			}
+		}
+		p.text = sb.String()
+		return
+	}
 	var sb strings.Builder
 	sb.WriteString("package verifgen\n")
 	seen := map[string]bool{}
@@ -141,7 +187,12 @@ func (p *c05Package) generate(dir string) (problem string) {
 	if err != nil {
 		return "ParsePackage: " + err.Error()
 	}
-	if pn := guarded(func() { err = stub.GeneratePackage(&out, "scratch/gen/"+p.name, pkg) }); pn != "" {
+	// packages that exchange objects: empty path, like the repository's go:generate lines
+	path := "scratch/gen/" + p.name
+	if len(p.aux()) > 0 && !p.withPath {
+		path = ""
+	}
+	if pn := guarded(func() { err = stub.GeneratePackage(&out, path, pkg) }); pn != "" {
 		return "GeneratePackage panics: " + pn
 	}
 	if err != nil {
@@ -258,6 +309,11 @@ func (p *c05Package) implementor(dir string) (problem string) {
 			case "OnTerminate":
 				fmt.Fprintf(&body, "func (i *%s) OnTerminate() {}\n\n", t)
 				continue
+			case "Ident":
+				if hasItf(u.sc.Itfs, "Itf") { // the method every exchanged interface has (IdlRpc: IdentLine)
+					fmt.Fprintf(&body, "func (i *%s) Ident() (int32, error) { return i.h.Ident() }\n\n", t)
+					continue
+				}
 			}
 			var ps, as []string
 			for k, pt := range m.params {
@@ -292,7 +348,7 @@ func (p *c05Package) implementor(dir string) (problem string) {
 		}
 		var named []string
 		for _, m := range proxy {
-			if m.name != "WithContext" {
+			if m.name != "WithContext" && !(m.name == "Ident" && hasItf(u.sc.Itfs, "Itf")) {
 				named = append(named, m.name)
 			}
 		}
@@ -305,6 +361,15 @@ func (p *c05Package) implementor(dir string) (problem string) {
 			default:
 				proxyProps = append(proxyProps, n)
 			}
+		}
+		var creates, makes strings.Builder
+		for _, n := range p.aux() {
+			arg := "&verifImpl" + n + "{o}"
+			if n == "Itf" {
+				arg = "&" + t + "{h: o.Sub()}"
+			}
+			fmt.Fprintf(&creates, "\n\t\t\t%q: func(s bus.Session, svc bus.Service, o *drv.Obj) (interface{}, error) { return Create%s(s, svc, %s) },", n, n, arg)
+			fmt.Fprintf(&makes, "\n\t\t\t%q: func(s bus.Session, p bus.Proxy) interface{} { return Make%s(s, p) },", n, n)
 		}
 		var props []string
 		for k := 0; k+2 < len(proxyProps); k += 3 {
@@ -326,12 +391,44 @@ func (p *c05Package) implementor(dir string) (problem string) {
 		ProxyMethods:  %s,
 		ProxySubs:     %s,
 		ProxyProps:    [][3]string{%s},
+		Create: map[string]func(bus.Session, bus.Service, *drv.Obj) (interface{}, error){%s
+		},
+		Make: map[string]func(bus.Session, bus.Proxy) interface{}{%s
+		},
 	})
 }
 
 `, p.name+"."+u.itfName, u.itfName, t, u.itfName, u.itfName, u.itfName,
 			quoteList(implMethods), quoteList(implChanges), quoteList(helperSignals), quoteList(helperUpdates),
-			quoteList(proxyMethods), quoteList(proxySubs), strings.Join(props, ", "))
+			quoteList(proxyMethods), quoteList(proxySubs), strings.Join(props, ", "), creates.String(), makes.String())
+	}
+	// the other interfaces of the package: their implementors forward to drv.Obj
+	for _, n := range p.aux() {
+		switch n {
+		case "Probe":
+			body.WriteString(`type verifImplProbe struct{ o *drv.Obj }
+
+func (i *verifImplProbe) Activate(activation bus.Activation, helper ProbeSignalHelper) error { return nil }
+func (i *verifImplProbe) OnTerminate()                                                         {}
+func (i *verifImplProbe) Ident() (int32, error)                                                { return i.o.Ident() }
+
+`)
+		case "Relay":
+			body.WriteString(`type verifImplRelay struct{ o *drv.Obj }
+
+func (i *verifImplRelay) Activate(activation bus.Activation, helper RelaySignalHelper) error { return nil }
+func (i *verifImplRelay) OnTerminate()                                                         {}
+func (i *verifImplRelay) Ident() (int32, error)                                                { return i.o.Ident() }
+func (i *verifImplRelay) Pass(probe ProbeProxy) (ProbeProxy, error) {
+	r, err := i.o.Pass(probe)
+	if err != nil || r == nil {
+		return nil, err
+	}
+	return r.(ProbeProxy), nil
+}
+
+`)
+		}
 	}
 	var src strings.Builder
 	src.WriteString("package verifgen\n\nimport (\n\tbus \"github.com/lugu/qiloop/bus\"\n\tdrv \"verif/harness/cmd/grammar/drv\"\n")
@@ -346,6 +443,15 @@ func (p *c05Package) implementor(dir string) (problem string) {
 		hlib.Fatal("write: %v", err)
 	}
 	return ""
+}
+
+func hasItf(l []string, n string) bool {
+	for _, x := range l {
+		if x == n {
+			return true
+		}
+	}
+	return false
 }
 
 func goCmd(dir string, args ...string) (string, error) {
@@ -381,11 +487,18 @@ func c05Main(args []string) {
 	byKey := map[string]*c05Package{}
 	var pkgs []*c05Package
 	for _, sc := range scenarios {
-		k := keyString(sc.Key)
+		k := sc.pkgKey()
 		if byKey[k] == nil {
 			p := &c05Package{name: "g" + k, cls: sc.Cls, units: []c05Unit{{"Itf", sc}}}
 			byKey[k] = p
 			pkgs = append(pkgs, p)
+		}
+	}
+	// one package that exchanges objects once more, generated with a package path
+	for _, p := range pkgs {
+		if p.cls == "object" && len(p.aux()) > 0 {
+			pkgs = append(pkgs, &c05Package{name: p.name + "_path", cls: p.cls, units: p.units, withPath: true, variant: "/with-package-path"})
+			break
 		}
 	}
 	// packages of three plain interfaces (structs shared between interfaces, several stubs in one file)
@@ -426,7 +539,7 @@ func c05Main(args []string) {
 		if len(p.units) > 1 {
 			return "/in-package"
 		}
-		return ""
+		return p.variant
 	}
 	generated := 0
 	for _, p := range pkgs {
@@ -444,25 +557,42 @@ func c05Main(args []string) {
 		}
 		p.ok = true
 	}
-	// build all generated packages; the output names the ones that fail
+	// build all generated packages; the output names the ones that fail.  A file
+	// that cannot even be loaded (e.g. an invalid import path) stops the whole
+	// build without naming a package: such packages are set aside and the
+	// build is repeated.
 	t0 := time.Now()
-	out, _ := goCmd(work, "build", "./gen/...")
-	buildWall := time.Since(t0)
 	failing := map[string][]string{}
-	cur := ""
 	re := regexp.MustCompile(`^# scratch/gen/(\S+)`)
-	for _, l := range strings.Split(out, "\n") {
-		if m := re.FindStringSubmatch(l); m != nil {
-			cur = m[1]
+	reLoad := regexp.MustCompile(`gen/([^/\s]+)/[^/\s]+\.go:\d+:\d+: (.*)`)
+	for round := 0; ; round++ {
+		out, _ := goCmd(work, "build", "./gen/...")
+		cur := ""
+		unloadable := map[string]bool{}
+		for _, l := range strings.Split(out, "\n") {
+			if m := re.FindStringSubmatch(l); m != nil {
+				cur = m[1]
+				continue
+			}
+			if cur != "" && strings.TrimSpace(l) != "" {
+				failing[cur] = append(failing[cur], l)
+			} else if m := reLoad.FindStringSubmatch(l); m != nil && cur == "" {
+				failing[m[1]] = append(failing[m[1]], l)
+				unloadable[m[1]] = true
+			}
+		}
+		if len(unloadable) > 0 && round < 5 {
+			for n := range unloadable {
+				os.RemoveAll(filepath.Join(work, "gen", n))
+			}
 			continue
 		}
-		if cur != "" && strings.TrimSpace(l) != "" {
-			failing[cur] = append(failing[cur], l)
+		if len(failing) == 0 && strings.TrimSpace(out) != "" && !strings.Contains(out, "go: ") {
+			hlib.Fatal("go build: %s", out)
 		}
+		break
 	}
-	if len(failing) == 0 && strings.TrimSpace(out) != "" && !strings.Contains(out, "go: ") {
-		hlib.Fatal("go build: %s", out)
-	}
+	buildWall := time.Since(t0)
 	compiled := 0
 	for _, p := range pkgs {
 		if !p.ok {
@@ -496,35 +626,54 @@ func c05Main(args []string) {
 	// scenarios of the packages that compiled
 	var run []drv.Scenario
 	for i, sc := range scenarios {
-		k := "g" + keyString(sc.Key)
-		if p := byKey[keyString(sc.Key)]; p.ok {
-			run = append(run, drv.Scenario{Cls: sc.Cls, Key: sc.Key, Acts: sc.Acts, Ops: sc.Ops, Pkg: k + ".Itf", N: i})
+		k := "g" + sc.pkgKey()
+		if p := byKey[sc.pkgKey()]; p.ok {
+			run = append(run, drv.Scenario{Cls: sc.Cls, Key: sc.Key, Acts: sc.Acts, Ops: sc.Ops, Pkg: k + ".Itf", N: i, Itfs: sc.Itfs, Layout: sc.Layout})
 		}
 		if t := triples[k]; t != nil && t.ok {
 			run = append(run, drv.Scenario{Cls: sc.Cls, Key: sc.Key, Acts: sc.Acts, Ops: sc.Ops, Pkg: t.name + "." + tripleItf[k], N: i})
 		}
 	}
-	scFile := filepath.Join(work, "run.ndjson")
-	fh, _ := os.Create(scFile)
-	for _, sc := range run {
-		b, _ := json.Marshal(sc)
-		fh.Write(append(b, '\n'))
-	}
-	fh.Close()
-	mk := func(start int, jp string) *exec.Cmd {
-		return exec.Command(bin, scFile, jp, strconv.Itoa(start))
-	}
-	caseOf := func(i int) interface{} {
-		if i < len(run) {
-			return map[string]interface{}{"scenario": run[i].N, "pkg": run[i].Pkg, "ops": run[i].Ops, "ctx": run[i].Cls}
+	// the runner keeps some memory per behaviour (servers, pipes and goroutines of the code under
+	// test that outlive their server): one process per chunk of behaviours
+	const chunk = 2500
+	totals := map[string]int{}
+	evaluations, operations := 0, 0.0
+	for lo := 0; lo < len(run); lo += chunk {
+		hi := lo + chunk
+		if hi > len(run) {
+			hi = len(run)
 		}
-		return nil
+		part := run[lo:hi]
+		scFile := filepath.Join(work, fmt.Sprintf("run-%d.ndjson", lo/chunk))
+		fh, _ := os.Create(scFile)
+		for _, sc := range part {
+			b, _ := json.Marshal(sc)
+			fh.Write(append(b, '\n'))
+		}
+		fh.Close()
+		mk := func(start int, jp string) *exec.Cmd {
+			return exec.Command(bin, scFile, jp, strconv.Itoa(start))
+		}
+		caseOf := func(i int) interface{} {
+			if i < len(part) {
+				return map[string]interface{}{"scenario": part[i].N, "pkg": part[i].Pkg, "ops": part[i].Ops, "ctx": part[i].Cls}
+			}
+			return nil
+		}
+		r := runProgram("c05-run", mk, len(part), 1500*time.Second, caseOf)
+		for _, f := range r.Failures {
+			res.Fail(f.Class, f.Detail, f.Case)
+		}
+		for k, n := range r.FailCount {
+			totals[k] += n
+		}
+		evaluations += r.Evaluations
+		if ops, ok := r.Extra["operations"].(float64); ok {
+			operations += ops
+		}
 	}
-	r := runProgram("c05-run", mk, len(run), 1500*time.Second, caseOf)
-	for _, f := range r.Failures {
-		res.Fail(f.Class, f.Detail, f.Case)
-	}
-	for k, n := range r.FailCount { // keep the full counts
+	for k, n := range totals { // keep the full counts
 		if res.FailCount == nil {
 			res.FailCount = map[string]int{}
 		}
@@ -532,7 +681,7 @@ func c05Main(args []string) {
 			res.FailCount[k] = n
 		}
 	}
-	res.Evaluations = r.Evaluations
+	res.Evaluations = evaluations
 	res.Distinct = len(byKey)
 	for _, sc := range run {
 		if len(res.Samples) < 3 && sc.N%211 == 5 {
@@ -543,12 +692,17 @@ func c05Main(args []string) {
 	res.SetExtra("packages", len(pkgs))
 	res.SetExtra("packages_generated", generated)
 	res.SetExtra("packages_compiled", compiled)
-	res.SetExtra("packages_of_three", len(pkgs)-len(byKey))
+	res.SetExtra("packages_of_three", len(triples)/3)
+	exchanging := 0
+	for _, p := range byKey {
+		if len(p.aux()) > 0 {
+			exchanging++
+		}
+	}
+	res.SetExtra("packages_exchanging_objects", exchanging)
 	res.SetExtra("scenarios_from_spec", len(scenarios))
 	res.SetExtra("scenarios_run", len(run))
 	res.SetExtra("go_build_wall_s", int(buildWall.Seconds()))
-	if ops, ok := r.Extra["operations"]; ok {
-		res.SetExtra("operations_replayed", ops)
-	}
+	res.SetExtra("operations_replayed", operations)
 	res.Emit()
 }
